@@ -123,7 +123,7 @@ pub proof fn lemma_lift(old_s: Seq<u64>, fin: Seq<u64>, off: int, l0: int, p: in
 
 //@ extract src/algorithms/mul.rs fn addmul bools=overflow rewrite="while let [ 0 , rest @ .. ] = a {" => "while a.len() > 0 && a[0] == 0 { let rest = &a[1..];" #1 rewrite="while let [ rest @ .. , 0 ] = a {" => "while a.len() > 0 && a[a.len() - 1] == 0 { let rest = &a[..a.len() - 1];" #1 rewrite="while let [ 0 , rest @ .. ] = b {" => "while b.len() > 0 && b[0] == 0 { let rest = &b[1..];" #1 rewrite="while let [ rest @ .. , 0 ] = b {" => "while b.len() > 0 && b[b.len() - 1] == 0 { let rest = &b[..b.len() - 1];" #1 rewrite="if let [ _ , rest @ .. ] = lhs {" => "if lhs.len() > 0 { let rest = &mut lhs[1..];" #2 rewrite="for & b in b {" => "for b_ref in b.iter() { let b = *b_ref;" #1
 /*+*/#[verifier::loop_isolation(false)]
-#[verifier::rlimit(1000)]/*-*/
+#[verifier::rlimit(1000)] #[verifier::spinoff_prover]/*-*/
 pub fn addmul(lhs: &mut [u64], a: &[u64], b: &[u64]) -> /*+*/(ovf:/*-*/ bool/*+*/)
     ensures
         final(lhs).len() == old(lhs).len(),
